@@ -312,7 +312,7 @@ func RunA(sc ScenarioA, fullPrime bool) *Result {
 type ParamsB struct {
 	NKeys    int    `json:"distinct_pubkeys"`
 	NAddrs   int    `json:"distinct_addresses"` // 0: only the addresses the key events need
-	Restarts string `json:"restarts"` // "none" | "every" (new store after every commit) | "last" (only before the final verification)
+	Restarts string `json:"restarts"`           // "none" | "every" (new store after every commit) | "last" (only before the final verification)
 }
 
 func (p ParamsB) String() string {
